@@ -14,6 +14,9 @@ From TS Require Proofs.C15_ScalaItem.
 From TS Require Proofs.C15_PythonItem.
 From TS Require Import Spec.C15RenderPyFile.
 From TS Require Proofs.C15_PythonFile.
+From TS Require Import Spec.C15RenderKtSc.
+From TS Require Proofs.C15_KotlinFile.
+From TS Require Proofs.C15_ScalaFile.
 Import ListNotations.
 From TS Require Props.C15.
 
@@ -496,3 +499,66 @@ Goal forall (uc : unicode), unicode_ok uc -> forall (cfg : py_config),
     c15_contained C15py LCode (mark (c15_file_pieces C15py parts)) = true.
 Proof. exact Props.C15.C15_py_file_line_free. Qed.
 Print Assumptions Props.C15.C15_py_file_line_free.
+Goal forall (uc : unicode) (cfg : kt_config),
+  c15_plain C15kt (kt_prefix cfg) = true ->
+  c15_mappings_plain C15kt (kt_type_mappings cfg) = true ->
+  c15_plain C15kt (kt_package cfg) = true ->
+  c15_version_nested_ok (kt_version cfg) = true ->
+  forall pd text,
+  forallb (c15_item_strict C15kt Kotlin) (items_of pd) = true ->
+  kt_generate uc cfg pd = Ok text ->
+  exists items parts,
+    topsort (items_of pd) = Ok items /\ Permutation items (items_of pd) /\
+    text = text_of (c15_file_pieces C15kt parts) /\
+    docs_of (c15_file_pieces C15kt parts) = flat_map c15_item_docs_helpers_first items /\
+    c15_contained C15kt LCode (mark (c15_file_pieces C15kt parts)) =
+    forallb safe_kt (flat_map c15_item_docs_helpers_first items).
+Proof. exact Props.C15.C15_kt_file. Qed.
+Print Assumptions Props.C15.C15_kt_file.
+Goal forall (uc : unicode) (cfg : kt_config),
+  c15_plain C15kt (kt_prefix cfg) = true ->
+  c15_mappings_plain C15kt (kt_type_mappings cfg) = true ->
+  c15_plain C15kt (kt_package cfg) = true ->
+  c15_version_nested_ok (kt_version cfg) = true ->
+  forall pd text,
+  forallb (c15_item_strict C15kt Kotlin) (items_of pd) = true ->
+  Forall (fun it => Forall (fun d => safe_line eol_lf_cr d = true) (c15_item_docs it)) (items_of pd) ->
+  kt_generate uc cfg pd = Ok text ->
+  exists items parts,
+    topsort (items_of pd) = Ok items /\ Permutation items (items_of pd) /\
+    text = text_of (c15_file_pieces C15kt parts) /\
+    docs_of (c15_file_pieces C15kt parts) = flat_map c15_item_docs_helpers_first items /\
+    c15_contained C15kt LCode (mark (c15_file_pieces C15kt parts)) = true.
+Proof. exact Props.C15.C15_kt_file_line_free. Qed.
+Print Assumptions Props.C15.C15_kt_file_line_free.
+Goal forall pd, items_of pd = c15_sc_file_items pd ++ map ItConst (p_consts pd).
+Proof. exact Props.C15.C15_sc_file_items_order. Qed.
+Print Assumptions Props.C15.C15_sc_file_items_order.
+Goal forall (uc : unicode) (cfg : sc_config),
+  c15_mappings_plain C15sc (sc_type_mappings cfg) = true ->
+  c15_plain C15sc (sc_package cfg) = true ->
+  c15_version_nested_ok (sc_version cfg) = true ->
+  forall pd text,
+  forallb (c15_item_strict C15sc Scala) (items_of pd) = true ->
+  sc_generate uc cfg pd = Ok text ->
+  exists parts,
+    text = text_of (c15_file_pieces C15sc parts) /\
+    docs_of (c15_file_pieces C15sc parts) = flat_map c15_item_docs_helpers_first (c15_sc_file_items pd) /\
+    c15_contained C15sc LCode (mark (c15_file_pieces C15sc parts)) =
+    forallb safe_sc (flat_map c15_item_docs_helpers_first (c15_sc_file_items pd)).
+Proof. exact Props.C15.C15_sc_file. Qed.
+Print Assumptions Props.C15.C15_sc_file.
+Goal forall (uc : unicode) (cfg : sc_config),
+  c15_mappings_plain C15sc (sc_type_mappings cfg) = true ->
+  c15_plain C15sc (sc_package cfg) = true ->
+  c15_version_nested_ok (sc_version cfg) = true ->
+  forall pd text,
+  forallb (c15_item_strict C15sc Scala) (items_of pd) = true ->
+  Forall (fun it => Forall (fun d => safe_line eol_lf_cr d = true) (c15_item_docs it)) (items_of pd) ->
+  sc_generate uc cfg pd = Ok text ->
+  exists parts,
+    text = text_of (c15_file_pieces C15sc parts) /\
+    docs_of (c15_file_pieces C15sc parts) = flat_map c15_item_docs_helpers_first (c15_sc_file_items pd) /\
+    c15_contained C15sc LCode (mark (c15_file_pieces C15sc parts)) = true.
+Proof. exact Props.C15.C15_sc_file_line_free. Qed.
+Print Assumptions Props.C15.C15_sc_file_line_free.
